@@ -33,6 +33,8 @@ def ev(spec, labels, pos):
         return ev(spec[1], labels, pos) + spec[2]
     if t == 'rsub':
         return spec[1] - ev(spec[2], labels, pos)       # k - expr: a value that GROWS when labels shrink
+    if t == 'diff':
+        return labels[spec[1]] - labels[spec[2]] + (spec[3] if len(spec) > 3 else 0)       # B - A (+ k): the size of a stretch of code / data
     v = ev(spec[1], labels, pos)
     if t == 'hi':
         return rv32.sext(((v + 0x800) >> 12) & 0xfffff, 20)
@@ -55,6 +57,8 @@ def spec_text(spec):
         return '%s + %d' % (spec_text(spec[1]), spec[2])
     if t == 'rsub':
         return '%d - %s' % (spec[1], spec_text(spec[2]))
+    if t == 'diff':
+        return '%s - %s' % (spec[1], spec[2]) + (' + %d' % spec[3] if len(spec) > 3 and spec[3] else '')
     return '%%%s(%s)' % (t, spec_text(spec[1]))
 
 
@@ -65,6 +69,8 @@ def spec_labels(spec):
         return [spec[1]]
     if spec[0] == 'rsub':
         return spec_labels(spec[2])
+    if spec[0] == 'diff':
+        return [spec[1], spec[2]]
     return spec_labels(spec[1])
 
 
